@@ -5,7 +5,7 @@
     from NewSentPacketHandler; calls that violate the API contract ([op_valid]) are not executed. *)
 From Coq Require Import List ZArith Bool.
 From V Require Import Gen.Params SentPH.Model SentPH.ProofsHist SentPH.ProofsBase SentPH.ProofsOps2 SentPH.ProofsMain
-  SentPH.ProofsAckRules SentPH.ProofsTimer SentPH.ProofsSkipped SentPH.ProofsScalars.
+  SentPH.ProofsAckRules SentPH.ProofsTimer SentPH.ProofsSkipped SentPH.ProofsScalars SentPH.ProofsDrop.
 From V Require Congestion.Model.
 Import ListNotations.
 Open Scope Z_scope.
@@ -249,3 +249,18 @@ Example C06_client_timer_nonvacuous :
   hasOutstandingCrypto (run i ops) = false /\ aTime (sAlarm (run i ops)) = 1200000000.
 Proof. exact client_timer_nonvacuous. Qed.
 Print Assumptions C06_client_timer_nonvacuous.
+
+(** ---- Round 4 ---- *)
+
+(** Key discard (Initial / Handshake) in any reachable state: no frame of the discarded space is reported — neither
+    OnAcked nor OnLost, so loss recovery requeues nothing —, bytesInFlight drops by exactly the in-flight bytes of that
+    space, the space is gone and the other spaces are untouched. *)
+Theorem C06_drop_discards : forall client validated ipn period maxPeriod rnd0 ops l now orc s,
+  0 <= ipn ->
+  let st := run (init client validated ipn period maxPeriod rnd0) ops in
+  (l = sph_EncInitial \/ l = sph_EncHandshake) -> get_space st l = Some s ->
+  let st' := fst (step st (ODrop l now, orc)) in
+  sCbs st' = sCbs st /\ sBif st' = sBif st - msum f_incl (h_list (spH s)) /\ get_space st' l = None /\
+  (forall l', lvl_ok l' = true -> slot_of l' <> slot_of l -> get_space st' l' = get_space st l').
+Proof. exact drop_discards. Qed.
+Print Assumptions C06_drop_discards.
